@@ -52,9 +52,9 @@ LEVEL_NOTE = ('Trusted: Lean kernel, axioms propext/Classical.choice/Quot.sound 
               'correspondence sample), scipy/numpy kernels named in TRUSTED. flegendre/fchebyshev call scipy polynomial objects; the model is '
               'the textbook recurrence and their agreement is sampled (1e-9, orders <= 12), not proved. Theorems are exact-field statements; '
               'float rounding is outside them (fits compared to a conditioning-scaled tolerance). The code computes in the dtype of xpos when that is '
-              'floating (float32 in, float32 coefficients) and, since fix 53c4990, in float64 for integer positions; these are not modelled as '
+              'floating (float32 in, float32 coefficients) and, since fix b42c4b4, in float64 for integer positions; these are not modelled as '
               'separate arithmetics: integer runs must equal the float64 run bit for bit, float32 runs (float32 or float64 values; mixed precision '
-              'raised AssertionError before fix e39e788) agree with it to 2e-4. '
+              'raised AssertionError before fix 45c4a77) agree with it to 2e-4. '
               'xy2traceset never rejects anything although its docstring speaks of rejection iterations (no lower/upper is passed to djs_reject) and '
               'outmask is all True even at masked points: the model and the theorems state exactly that; the property is silent about outmask. '
               'No theorem of the extension is partial.')
